@@ -49,6 +49,7 @@ type Config struct {
 	AllocFactor int // C07: allocation bound factor (0 = off)
 	AllocBase   int
 	InputLen    int
+	LossyFmt    bool // decimal/hex rendering of symbolic integers yields a placeholder (totality harnesses only)
 }
 
 type Exec struct {
